@@ -1474,13 +1474,14 @@ def gen_ill_plan(rng, kind, tier="quick"):
         plan["ops"] += [{"op": "tick"}] * nd
     elif kind == "custom_nobidoffer":
         plan["feed"]["bidoffer"] = None
+        # any custom level is ill-formed without the bookkeeping switched on: above, below, at the quote, and exactly zero
         for o in plan["ops"]:
             if o["op"] == "transact":
-                o["custom"] = 1.01
+                o["custom"] = rng.choice([1.01, 0.98, 1.0, 0.0])
                 o["direct"] = True
         plan["ops"].append({"op": "tick"})
         plan["ops"].append({"op": "alloc", "n": 0, "c": 0, "mode": "frac", "frac": 0.2, "direct": False, "upd": True})
-        plan["ops"].append({"op": "transact", "n": 0, "c": 0, "qfrac": 0.2, "upd": True, "direct": True, "custom": 1.01})
+        plan["ops"].append({"op": "transact", "n": 0, "c": 0, "qfrac": 0.2, "upd": True, "direct": True, "custom": rng.choice([1.01, 0.0])})
     elif kind == "transact_nan":
         fi = rng.random() < 0.5
         cls = rng.choice(["CouponPayingSecurity", "FixedIncomeSecurity", "Security"]) if fi else "Security"
